@@ -179,8 +179,10 @@ xattr_open_map_file(const char *path) {
 					   ISTREAM_LINE_LTRIM |
 					   ISTREAM_LINE_RTRIM |
 					   ISTREAM_LINE_SKIP_EMPTY);
-		if (ret < 0)
+		if (ret < 0) {
+			sqfs_perror(path, NULL, ret);
 			goto fail;
+		}
 		if (ret > 0)
 			break;
 
